@@ -7,6 +7,7 @@ import MotoModel.Proofs.DiskHistory
 import MotoModel.Proofs.DiskRuns
 import MotoModel.Proofs.DiskPlace
 import MotoModel.Proofs.DiskSections
+import MotoModel.Proofs.DiskPerSide
 namespace Moto.C10
 open Moto Moto.Disk
 
@@ -214,5 +215,16 @@ theorem file_announced_where_stored (name ext : Str) (kind flag : Nat) (data : B
        ∨ (storedOn st.cur (fileEvents name ext kind flag data 4 st.img st.cur) = []
           ∧ ∀ k j, k < 4 → j < 112 → imgFileAt st'.img k j = imgFileAt st.img k j)) :=
   announced_where_stored name ext kind flag data hname st h hc
+
+/-- **C10 (…exactly the files: nothing is stored without being announced)**: for every side, the
+    number of announcements in that side's section of the create/add report equals the number of
+    files the image gained on that side — catalog slots that held no file before the batch and hold
+    one after it.  With `report_sections_match_image` (every announcement is a file of that side, in
+    a slot that was empty): the section of a side lists the files the side received, and no other. -/
+theorem sections_count_match_image (w : Tape.World) (verbose : Bool) (img : Image) (srcs : List Str)
+    (himg : ImgOk img) (hs : ∀ src ∈ srcs, CleanSrc src) :
+    ∃ st, performCore w verbose img srcs = .ok st ∧ ImgOk st.img
+      ∧ ∀ k, k < 4 → announcedOn k (storedOn 0 (batchEvents w srcs img)) = newOn img st.img k :=
+  batch_count w verbose img srcs himg hs
 
 end Moto.C10
